@@ -51,7 +51,8 @@ func (db *Builder) Add(b []byte) error {
 	if db.lastWord != nil && bytes.Compare(db.lastWord, b) != -1 {
 		return errors.New("byte slices must be added in lexicographical order")
 	}
-	db.lastWord = b
+	//Keep a copy which is never nil so that the empty word also counts as a previous word.
+	db.lastWord = append([]byte{}, b...)
 	_, suffix, lastNode := db.d.commonPrefix(b)
 	if len(lastNode.links) != 0 {
 		db.register = replaceOrRegister(lastNode, db.register)
